@@ -44,15 +44,27 @@ SRGB_IDS = [bytes.fromhex("29f83ddeaff255ae7842fae4ca83390d"), bytes.fromhex("c9
             bytes.fromhex("fc66337837e2886bfd72e9838228f1b8"), bytes.fromhex("34562abf994ccd066d2c5721d0d68c5d")]
 
 
+OTHER_IDS = [bytes.fromhex("01a2b3c4d5e6f708192a3b4c5d6e7f80"), bytes.fromhex("0102030405060708090a0b0c0d0e0f10"),
+             bytes.fromhex("01ffeeddccbbaa998877665544332211")]
+
+
 def icc_profile(rng, kind):
-    """kind: 'srgb' (recognised profile id), 'other'"""
+    """kind: 'srgb' (recognised profile id), 'other'. Half of the profiles are compressible (so that re-compression pays off) and
+    the profile IDs come from small pools: different profiles of equal length that carry the same ID occur within one run (an ID
+    does not identify the content: it does not cover the rendering intent / flags, and edited profiles keep stale IDs)"""
     n = rng.choice([128, 200, 400])
-    p = bytearray(rng.randrange(256) for _ in range(n))
+    if rng.random() < 0.5:
+        p = bytearray(rng.randrange(256) for _ in range(n))
+    else:
+        p = bytearray(n)
+        for _ in range(rng.randrange(1, 6)):
+            p[rng.randrange(n)] = rng.randrange(256)
+        p[44:48] = bytes(rng.randrange(256) for _ in range(4))
     p[67] = rng.randrange(4)
     if kind == "srgb":
         p[84:100] = rng.choice(SRGB_IDS)
     else:
-        p[84:100] = bytes([1] + [rng.randrange(256) for _ in range(15)])
+        p[84:100] = rng.choice(OTHER_IDS) if rng.random() < 0.7 else bytes([1] + [rng.randrange(256) for _ in range(15)])
     return bytes(p)
 
 
@@ -64,7 +76,7 @@ def iccp_chunk(rng, kind):
         prof = icc_profile(rng, "other")
         return b"name\0\1" + zlib.compress(prof), None
     prof = icc_profile(rng, kind)
-    return b"a profile\0\0" + zlib.compress(prof, rng.choice([1, 9])), prof
+    return b"a profile\0\0" + zlib.compress(prof, rng.choice([0, 1, 9])), prof
 
 
 def c2pa_box(rng, real=True):
